@@ -86,6 +86,18 @@ def run_case(job):
         status = "ok" if r1["status"] == "ok" and r2["status"] == "ok" else f"{r1['status']}/{r2['status']}:{r1['exc']}{r2['exc']}"
         plain = read_out(o1).split("\n")[:-1] if os.path.exists(o1) else []
         fasta = read_out(o2).split("\n")[:-1] if os.path.exists(o2) else []
+        # a paths file of more than 1 MiB (the same paths over and over): one output line per input line, whatever the size
+        big_in = big_out = 0
+        if str(cid).startswith("big65536+0") or str(cid) == "g2v0":
+            reps = (1200000 // max(1, sum(len(pstr(p)) + 1 for p in paths))) + 1
+            pbig = os.path.join(d, "paths_big.txt")
+            with open(pbig, "w") as f:
+                for _ in range(reps):
+                    f.write("".join(pstr(p) + "\n" for p in paths))
+            big_in = reps * len(paths)
+            ob = os.path.join(d, "ob")
+            rb = run_cli(["find_path", gpath, pbig, "-o", ob], timeout=300)
+            big_out = len(read_out(ob).split("\n")) - 1 if os.path.exists(ob) and rb["status"] == "ok" else -1
         single = []
         for p in paths[:: max(1, len(paths) // 6)]:
             o3 = os.path.join(d, "o3")
@@ -106,6 +118,8 @@ def run_case(job):
             "single": single,
             "variant": variant,
             "gz": gz,
+            "big_in": big_in,
+            "big_out": big_out,
         }
     finally:
         import shutil
